@@ -755,3 +755,11 @@ func TestC03ImplRistretto(t *testing.T) {
 	c03iBackend(t)
 	h.Run(t, c03iGenRist, c03iCheckRist)
 }
+
+// The scalar-multiplication implementations with four cases at a time, one
+// goroutine each (h.RunPar): the window tables, recodings and bucket arrays
+// are per call (stack or heap), never package-level scratch.
+func TestC03ParImplScalarMul(t *testing.T) { h.RunPar(t, 4, c03iGenMul, c03iCheckMul) }
+func TestC03ParImplMSMSmall(t *testing.T) {
+	h.RunPar(t, 4, func(t *rapid.T) c03iMSMCase { return c03iGenMSM(t, false) }, c03iCheckMSM)
+}
